@@ -79,9 +79,19 @@ class Layout:
         self.assign_nodes = {}  # class attr name -> ast node of the assignment
         self.layout_fn = None
         self.init_fn = None
-        self._find_functions()
-        self._bind_symbols()
-        self._eval_layout()
+        self.failed = None
+        self.bounds_names = set()
+        self.local_forms = {}
+        try:
+            self._find_functions()
+            self._bind_symbols()
+            self._eval_layout()
+        except AnalysisError as e:
+            # the class that owns the layout was restructured beyond what is decoded here: no
+            # column classification is possible, and nothing derived from one is a verdict
+            # (sa/driver.py turns every failed obligation of such a run into "not decided")
+            self.failed = str(e)
+            self.forms = {}
 
     # the layout function: the classmethod that assigns cls.state_size
     def _find_functions(self):
